@@ -207,6 +207,11 @@ def r2_functions(program, folder, rep, eths):
     cellv = [st_ for st_ in subterms(yt) if st_[0] == "elem" and
              st_[1][0] == "call" and st_[1][1] == ("global", "range") and
              len(st_[1][2]) == 3]
+    if not cellv:
+        raise AnalysisError("spinn5_eth_coords: the cell origins are not "
+                            "produced by range(0, size, 12) loops visible in "
+                            "the yielded coordinates; that form is not "
+                            "analysed")
     wpoly = fl.fdiv(width + 11, Poly.const(12)) * 12
     hpoly = fl.fdiv(height + 11, Poly.const(12)) * 12
     for k, (which, size, root) in enumerate((("x", wpoly, rx),
